@@ -77,7 +77,7 @@ CLAIMED = {
     design="7/C03"),
   "C04": dict(
     text="Lean 4 theorem C04_temporal_partition: for every non-empty list of non-negative device intervals and every start-sorted permutation of it, the merge routine's numbers equal the unit-cell measures of the span/idle/compute/remainder and sum exactly to kernel_time. Tied to the code by a differential run of get_temporal_breakdown against the executable model, plus Spec.C04.check and an independent Python oracle evaluated on the implementation's own output.",
-    note=TB + "Percent columns compared within 0.006 (float rounding not modelled). Kernel-type regexes modelled as prefix/infix tests and compared against Python re on every generated name.",
+    note=TB + "Percent columns must lie within half a unit of the last place (0.005) of the unrounded exact ratio; the tie rule and float rounding are not modelled. Kernel-type regexes modelled as prefix/infix tests and compared against Python re on every generated name.",
     technique="Lean 4 proof (induction over the sorted merge fold; unit-cell measure) + model/implementation correspondence",
     design="7/C04"),
   "C05": dict(
@@ -87,12 +87,12 @@ CLAIMED = {
     design="7/C05"),
   "C07": dict(
     text="Lean 4 theorem C07_overlap_exact: for every start-sorted permutation of the communication/computation kernels and every time-sorted permutation of their +-1/+-2 markers, the sweep's numerator and denominator are the unit-cell measures of comm∩comp and comm, with 0 <= num <= den. Tied to get_comm_comp_overlap by a differential run; the reported percentage is checked against round(100*num/den,2) from the model, from Spec.C07.exact (cell counting in Lean) and from a Python oracle.",
-    note=TB + "num and den are not exposed by the API: the comparison is on the percentage within 0.006. den = 0 (only zero-length communication kernels) is 0/0 in the code and undefined in the statement; agreed outcome NaN.",
+    note=TB + "num and den are not exposed by the API: the comparison is on the percentage, which must lie within 0.005 of the unrounded exact ratio. den = 0 (only zero-length communication kernels) is 0/0 in the code and undefined in the statement; agreed outcome NaN.",
     technique="Lean 4 proof (marker sweep = unit-cell measure) + model/implementation correspondence",
     design="7/C07"),
   "C06": dict(
     text="Lean 4 theorems: C06_stream_order (for non-overlapping kernels, in any order sort_values(by=[ts,dur]) may return, every earlier kernel ends no later than every later one starts, so list-consecutive = stream-consecutive), C06_gaps_nonneg, C06_classify_rule (host_wait / kernel_wait / other exactly by the documented rule, with strict > and <), C06_categories_partition and C06_idle_telescopes / C06_analyze_total (categories add up to span minus busy time). Tied to get_idle_time_breakdown by a differential run over ranks, stream subsets and thresholds equal to generated gaps, plus an independent Python oracle phrased through the correlation links.",
-    note=TB + "idle_time compared exactly; idle_time_ratio against round(idle/total,2) within 0.006 (float division not modelled). The lookup of the launch call's start goes through index_correlation as in the code.",
+    note=TB + "idle_time compared exactly; idle_time_ratio within 0.005 of the unrounded idle/total (tie rule and float division not modelled). The lookup of the launch call's start goes through index_correlation as in the code.",
     technique="Lean 4 proof (pairwise order argument, telescoping sum, case analysis) + model/implementation correspondence",
     design="7/C06"),
   "C13": dict(
